@@ -183,12 +183,20 @@ def r1(repo, chk):
             chk.ob("R1", f"{cf.qual}: the writer side consumes `{want}`", want in ctexts, "consumption vanished (the pairing table is stale) - re-read the writer", cf.loc(cf.node))
         # the scheduler tests the state again
         tests = []
+        test_atoms = set()
         for g in _all_fns(repo):
             if g.mod.name in ("quic.connection", "quic.stream") and (g.qual.split(".")[-1].startswith("_write") or g.qual.split(".")[-1] in ("get_frame", "datagrams_to_send")):
                 for st in g.stmts(lambda s: isinstance(s, (ast.If, ast.While, ast.For))):
                     tests.append(norm(st.test) if not isinstance(st, ast.For) else norm(st.iter))
+                    if not isinstance(st, ast.For):
+                        # either polarity: `if state != sent: write` and `if state == sent: continue` test the same thing
+                        test_atoms |= {a[0] for a in flatten_cond(st.test, True)} | {a[0] for a in flatten_cond(st.test, False)}
         for frag in spec["sched"]:
-            chk.ob("R1", f"{hname}: the scheduler tests `{frag}` (so re-armed state leads to a new frame)", any(frag in t for t in tests), "no write-path condition reads the re-armed state", "")
+            try:
+                fa = {natom(frag)[0], natom(frag, False)[0]}
+            except (ValueError, SyntaxError):
+                fa = set()
+            chk.ob("R1", f"{hname}: the scheduler tests `{frag}` (so re-armed state leads to a new frame)", any(frag in t for t in tests) or bool(fa & test_atoms), "no write-path condition reads the re-armed state", "")
         # handler_args carry what was consumed
         for fn, c in regs:
             ha = get_kw(c, "handler_args", 3)
